@@ -158,6 +158,8 @@ pub enum Resp {
     Short(usize),
     Interrupted,
     Fail,
+    /// a transient hard error: this call fails, later calls work again
+    FailOnce,
 }
 
 pub fn parse_sched(s: &str) -> Vec<Resp> {
@@ -172,6 +174,8 @@ pub fn parse_sched(s: &str) -> Vec<Resp> {
             out.push(Resp::Interrupted)
         } else if it == "f" {
             out.push(Resp::Fail)
+        } else if it == "t" {
+            out.push(Resp::FailOnce)
         } else if it == "z" {
             out.push(Resp::Short(0))
         } else if let Some(n) = it.strip_prefix("o*") {
@@ -194,6 +198,8 @@ pub struct SinkState {
     /// after the first `Fail` every later call fails too (a crashed disk stays crashed)
     pub sticky: bool,
     pub failed: bool,
+    /// some call returned a hard error or `Ok(0)` (sticky or transient): bytes were rejected
+    pub rejected: bool,
     pub data: Vec<u8>,
     /// raw calls seen: `w<len>` / `f`
     pub trace: Vec<String>,
@@ -227,6 +233,9 @@ impl FaultSink {
     pub fn failed(&self) -> bool {
         self.0.lock().unwrap().failed
     }
+    pub fn rejected(&self) -> bool {
+        self.0.lock().unwrap().rejected
+    }
 }
 
 impl Write for FaultSink {
@@ -259,13 +268,19 @@ impl Write for FaultSink {
                 if n == 0 {
                     // a full sink stays full: `Ok(0)` is a hard fault (`WriteZero`)
                     st.failed = true;
+                    st.rejected = true;
                 }
                 Ok(n)
             }
             Resp::Interrupted => Err(io::Error::new(io::ErrorKind::Interrupted, "injected: interrupted")),
             Resp::Fail => {
                 st.failed = true;
+                st.rejected = true;
                 Err(io::Error::other("injected: write failed"))
+            }
+            Resp::FailOnce => {
+                st.rejected = true;
+                Err(io::Error::other("injected: write failed (transient)"))
             }
         }
     }
@@ -283,10 +298,43 @@ impl Write for FaultSink {
             Resp::Interrupted => Err(io::Error::new(io::ErrorKind::Interrupted, "injected: interrupted")),
             Resp::Fail => {
                 st.failed = true;
+                st.rejected = true;
                 Err(io::Error::other("injected: flush failed"))
+            }
+            Resp::FailOnce => {
+                st.rejected = true;
+                Err(io::Error::other("injected: flush failed (transient)"))
             }
         }
     }
+}
+
+/// the reduced set for large outputs: hard failure (sticky and transient) and a short write at
+/// every raw call index
+pub fn schedules_for_large(trace: &[String]) -> Vec<(String, &'static str)> {
+    let mut out = vec![];
+    for (k, c) in trace.iter().enumerate() {
+        let pre = if k == 0 { String::new() } else { format!("o*{k},") };
+        out.push((format!("{pre}f"), "F"));
+        out.push((format!("{pre}t"), "T"));
+        if let Some(n) = c.strip_prefix('w') {
+            let n: usize = n.parse().unwrap();
+            if n > 1 {
+                out.push((format!("{pre}s{}", n / 2), "S"));
+            }
+        }
+    }
+    out
+}
+
+/// what happened when a writer was driven over a faulty sink
+#[derive(Default)]
+pub struct Outcome {
+    /// bytes in the sink when the first error was returned to the caller
+    pub accepted_at_error: Option<usize>,
+    /// API calls made AFTER an error was returned that reported success (`finish#1`, `finish#2`, `into_inner`, …)
+    pub later_ok: Vec<String>,
+    pub notes: Vec<String>,
 }
 
 /// the schedules enumerated for a writer whose fault-free trace is `trace`:
@@ -297,6 +345,7 @@ pub fn schedules_for(trace: &[String]) -> Vec<(String, &'static str)> {
     for (k, c) in trace.iter().enumerate() {
         let pre = if k == 0 { String::new() } else { format!("o*{k},") };
         out.push((format!("{pre}f"), "F"));
+        out.push((format!("{pre}t"), "T"));
         out.push((format!("{pre}i"), "I"));
         if let Some(n) = c.strip_prefix('w') {
             let n: usize = n.parse().unwrap();
